@@ -85,7 +85,7 @@ Prompt == (Len(out) = total /\ calls > 0) => done = "Complete"
 \* every call makes progress (a buffer with four free bytes always takes something), so encoding terminates
 Progress == calls <= total + 1
 
-Export == (done = "Complete" /\ TLCGet("stats").distinct % 7 = 0) => PrintT(<<"CAPS", ToJson([total |-> total, caps |-> hist])>>)
+Export == (done = "Complete") => PrintT(<<"CAPS", ToJson([total |-> total, caps |-> hist])>>)
 
 \* alphabets
 I(n) == [k |-> "int", n |-> n]
